@@ -95,7 +95,7 @@ def run(ctx):
         variants = [(f"crc-replaced@{a:08x}", data[:17] + a.to_bytes(4, "big") + data[21:]) for a in sorted(alts) if a != crcv]
         if quick:
             variants = r.sample(variants, min(4, len(variants)))
-        for _ in range(3 if quick else 12):
+        for _ in range(3 if quick else 6):
             k = r.randrange(21, len(data))
             x = r.choice([b for b in (0, 0xFF, data[k] ^ 0x80, (data[k] + 1) % 256, r.randrange(256)) if b != data[k]])
             variants.append((f"byte-replaced@{k}:={x:02x}", data[:k] + bytes([x]) + data[k + 1:]))
@@ -104,7 +104,7 @@ def run(ctx):
                 w = bytes(r.getrandbits(8) for _ in range(4))
                 if w != data[k:k + 4]:
                     variants.append((f"burst@{k}", data[:k] + w + data[k + 4:]))
-        for how, damaged in (variants[:60] if len(data) < 3000 else variants[:4] + variants[-2:]):
+        for how, damaged in (variants[:24] if len(data) < 3000 else variants[:4] + variants[-2:]):
             o = rc.impl_read(damaged)
             rcases.append((damaged, o)); meta.append((label, how))
             if o[0] == "ok":
